@@ -38,13 +38,13 @@ from harness.tla_values import to_tla
 from phonopy import Phonopy
 from phonopy.structure.grid_points import GridPoints, length2mesh
 
-IMPL_INVS = ["ImplMeshIsRequested", "ImplGridComplete", "ImplMapWellFormed", "ImplEveryPointIsImageHalf",
+IMPL_INVS = ["ImplMeshIsRequested", "ImplEquivalentAxesEqual", "ImplGridComplete", "ImplMapWellFormed", "ImplEveryPointIsImageHalf",
              "ImplEveryPointIsImageGeneric", "ImplIrWeights", "ImplWeightsSum", "ImplQpointsHalf",
              "ImplQpointsGeneric", "ImplExact", "ImplOffIsFull", "ImplSymOnOffEqual", "ImplGroupIsExact"]
 CONF_INVS = ["ConformsInitMesh", "ConformsMesh", "ConformsIsShift", "ConformsIndexConvention", "ConformsMap",
              "ConformsIr", "ConformsQpoints"]
-EVENT_INVS = ["EventRotsInCrystalGroup"]
-MODEL_INVS = ["TypeOK", "InvLengthRule", "InvMeshIsRequested", "InvGridComplete", "InvEveryPointIsImage", "InvIrWeights",
+EVENT_INVS = ["EventRotsInCrystalGroup", "EventBoundaryRaw"]
+MODEL_INVS = ["TypeOK", "InvLengthRule", "InvBoundaryTheorem", "InvEquivalentAxesEqual", "InvMeshIsRequested", "InvGridComplete", "InvEveryPointIsImage", "InvIrWeights",
               "InvWeightsSum", "InvQpoints", "InvOffIsFull", "InvSymOnOffEqual", "InvCharacterisation",
               "InvClassesAreOrbits"]
 ACTIONS = ["Choose", "LengthToMesh", "InitMesh", "Shift2Boolean", "HasMeshSymmetry", "Reduce", "ExtractIr"]
@@ -142,7 +142,8 @@ def call_gridpoints(cfg, world, crystal, fit, norots=False):
 def make_event(eid, cfg, crystal, full, gp, passed=None):
     res, ish, mesh, resid = cm.project(gp, cfg, None)
     ev = dict(id=eid, cfg={k: v for k, v in cfg.items() if not k.startswith("_")}, crystal=crystal, full=full,
-              isShift=ish, mesh=mesh, res=res)
+              isShift=ish, mesh=mesh, res=res,
+              bnd=cfg.get("_bnd") or dict(k=0, j=1, p=1, side="none", sign="none"))
     if passed is not None:
         ev["passed"] = passed
     return ev, resid
@@ -159,7 +160,7 @@ def length_base(G, a, length):
 
 
 # ------------------------------------------------------------------ model run
-def model_configs(ctx, world, api_crystals):
+def model_configs(ctx, world, api_crystals, apiw=None):
     rng = ctx.rng
     quick = ctx.quick
     cfgs = []
@@ -210,6 +211,8 @@ def model_configs(ctx, world, api_crystals):
                                     sym=sym, grp=c, _crystal=c, _length=length))
     rng.shuffle(api)
     api = api[: (90 if quick else 1200)]
+    if apiw is not None:
+        api += apiw.boundary_cfgs(ctx)
     # every base triple for the length rule, exhaustively small (grid numbers do not matter there)
     return cfgs + api
 
@@ -259,9 +262,13 @@ def done_states(path):
 class ApiWorld:
     """Real Phonopy objects with exact spring-model force constants."""
 
-    def __init__(self, ctx, crystals):
+    STRAIN = 7.5e-5   # relative; far below the symmetry tolerance used for the strained cells
+    SYMPREC = 1e-3
+
+    def __init__(self, ctx, crystals, world=None):
         self.ph = {}
         self.orc = {}
+        self.strained = {}  # label -> dict(ph, c, j, p, sign, L): cells with one of two equivalent axes strained
         self.base = {}  # label of a Phonopy object -> catalogue crystal
         S = [[2, 0, 0], [0, 2, 0], [0, 0, 2]]
         for c in crystals:
@@ -281,9 +288,57 @@ class ApiWorld:
             self.ph[c + "~unstable"] = ph
             self.base[c + "~unstable"] = c
 
+        # Cells whose symmetry-equivalent axes differ below the symmetry tolerance (a relaxed structure): the
+        # point group found at SYMPREC is still the exact one (checked), the raw numbers of a length are not
+        # equal on the two axes.  Only the grids are examined on these (frequencies are symmetric to ~STRAIN only).
+        from phonopy.structure.atoms import PhonopyAtoms
+
+        for c in (crystals if world is not None else []):
+            pairs = sorted(lat_equiv_pairs(world.table[c]))
+            if not pairs:
+                continue
+            p_, j_ = pairs[0]
+            for sign in ("long", "short"):
+                u = self.orc[c].unitcell()
+                L = np.array(u.cell, dtype=float)
+                L[j_] *= (1 + self.STRAIN) if sign == "long" else (1 - self.STRAIN)
+                cell = PhonopyAtoms(symbols=u.symbols, scaled_positions=u.scaled_positions, cell=L, masses=u.masses)
+                with contextlib.redirect_stdout(io.StringIO()):
+                    ph = Phonopy(cell, supercell_matrix=S, symprec=self.SYMPREC)
+                ph.force_constants = self.orc[c].supercell_fc(S, self.ph[c].supercell)
+                if len(ph.primitive_symmetry.pointgroup_operations) != len(world.table[c]):
+                    raise tlcmod.MachineryError("strained %s cell: point group of order %d found at symprec %g" % (
+                        c, len(ph.primitive_symmetry.pointgroup_operations), self.SYMPREC))
+                self.strained["%s~%s" % (c, sign)] = dict(ph=ph, c=c, j=j_, p=p_, sign=sign, L=L)
+
+    def boundary_cfgs(self, ctx):
+        """Length-specified meshes just across a rounding boundary (BoundaryCases of MeshGrid.tla), each with
+        mesh symmetry on and off."""
+        out = []
+        for label, st in self.strained.items():
+            rec = np.linalg.norm(np.linalg.inv(st["L"]), axis=0)  # |a*_k|
+            for k in ((1, 2) if ctx.quick else (1, 2, 3)):
+                for side in ("above", "below"):
+                    eps = 0.5 * (k + 0.5) * self.STRAIN
+                    length = (k + 0.5 + (eps if side == "above" else -eps)) / rec[st["p"]]
+                    vals = length * rec
+                    o = 3 - st["j"] - st["p"]
+                    if abs(vals[o] - np.floor(vals[o]) - 0.5) < 1e-3:
+                        continue
+                    base = [int(x) for x in np.rint(vals)]
+                    if (k + 1) * (k + 1) * max(base[o], 1) > 100:
+                        continue
+                    for sym in (True, False):
+                        for (sn, sd), gamma in ((HALF_SHIFTS[0], False), (HALF_SHIFTS[7], True)):
+                            out.append(dict(level="api", len=True, mesh=base, sn=list(sn), sd=sd, gamma=gamma, tr=True,
+                                            sym=sym, grp=st["c"], _crystal=st["c"], _length=float(length), _label=label,
+                                            _bnd=dict(k=k, j=st["j"] + 1, p=st["p"] + 1, side=side, sign=st["sign"])))
+        return out
+
     def init_mesh(self, cfg, crystal, run=False, label=None):
         """Phonopy.init_mesh / run_mesh with the GridPoints construction recorded."""
-        ph = self.ph[label or crystal]
+        label = label or cfg.get("_label")
+        ph = self.strained[label]["ph"] if label in self.strained else self.ph[label or crystal]
         shift = cm.shift_float(cfg)
         mesh = cfg["_length"] if cfg["len"] else cfg["mesh"]
         with cm.Recorder() as rec:
@@ -333,7 +388,8 @@ def replay_model(ctx, world, apiw, cfgs, states):
             if exp[f] != got[f]:
                 ctx.violation("%s:replay:%s" % (classify(cfg, ish, world, mesh), f),
                               "C09 replay: real %s differs from the specification's for the same configuration" % f,
-                              dict(cfg=strip(cfg), field=f, expected=exp[f], observed=got[f],
+                              dict(cfg=strip(cfg), field=f, expected=exp[f], observed=got[f], length=cfg.get("_length"),
+                                   cell=cfg.get("_label"), boundary_case=cfg.get("_bnd"),
                                    rotations=world.table[cfg["grp"]]))
                 break
     ctx.traces += n
@@ -450,7 +506,8 @@ def report(ctx, world, events, viols, tag):
         cls = classify(e["cfg"], e["isShift"], world, e["mesh"]) if e else "unknown"
         detail = None
         if e:
-            detail = dict(invariant=name, cfg=e["cfg"], crystal=e["crystal"], rotations=world.table[e["cfg"]["grp"]],
+            detail = dict(invariant=name, cfg=e["cfg"], crystal=e["crystal"], length=e.get("length"),
+                          boundary_case=e["bnd"] if e["bnd"]["k"] else None, rotations=world.table[e["cfg"]["grp"]],
                           isShift=e["isShift"], mesh=e["mesh"], grid_mapping_table=e["res"]["map"],
                           ir_grid_points=e["res"]["ir"], weights=e["res"]["weights"], passed=e.get("passed"))
         if name in EVENT_INVS:
@@ -626,6 +683,23 @@ def api_events(ctx, world, apiw, events_start):
                                   "C09: frequencies of the full mesh differ from those of the class representatives "
                                   "(relative %.3g)" % errf,
                                   dict(crystal=c, cfg=strip(on["cfg"]), relative_difference=errf))
+    # length-specified meshes across rounding boundaries on strained cells, mesh symmetry on and off
+    nb = 0
+    for cfg in apiw.boundary_cfgs(ctx):
+        c = cfg["_crystal"]
+        try:
+            gp, passed = apiw.init_mesh(cfg, c)
+        except Exception as e:
+            ctx.violation("regular:api:exception",
+                          "C09: init_mesh raised %s where the specification expects a grid" % type(e).__name__,
+                          dict(cfg=strip(cfg), err=repr(e)))
+            continue
+        ev, resid = make_event(events_start + len(events), cfg, c, True, gp, passed)
+        ev["length"] = "%.9f" % cfg["_length"]
+        events.append(ev)
+        nb += 1
+        ctx.count(("api-boundary", cfg["_label"], json.dumps(strip(cfg), sort_keys=True)))
+    ctx.extra["events_boundary_length"] = nb
     ctx.extra["weighted_sum_comparisons"] = len(margins)
     ctx.extra["weighted_sum_max_relative_difference_accepted"] = max([m for m in margins if m < 1e-8], default=0.0)
     return events
@@ -641,10 +715,10 @@ def run(ctx):
     world = World(ctx, names)
     api_crystals = ["hcp", "ocp", "mcp2"] if quick else ["sc", "hcp", "wz", "tetab", "tric", "fccp", "rhp", "ocp",
                                                          "mcp", "mcp2", "bctp", "ortho", "cscl"]
-    apiw = ApiWorld(ctx, api_crystals)
+    apiw = ApiWorld(ctx, api_crystals, world)
 
     # 2. model run + replay ---------------------------------------------------------
-    cfgs = model_configs(ctx, world, api_crystals)
+    cfgs = model_configs(ctx, world, api_crystals, apiw)
     res = run_model(ctx, world, cfgs)
     model_viol = sorted(set(n for n, _ in res.violations))
     for name, tr in res.violations:
